@@ -651,3 +651,25 @@ for _i in [1, 2, 3, 4, 5, 6, 7, 8, 10, 11, 12, 13, 14, 15, 16, 17, 18, 19, 20]:
         VARIANTS.append(dict(id="%s-c%02d" % (_t[1:].replace("_", "-"), _i), prop="C%02d" % _i, expect="silent", edits=[(_t,)], rule=None, what=_w))
 V("c14-shuffle-keyword-on-caller-data", "C14", "fire", UT, "        n = len(sample)\n        sample = sample.copy()\n        rng.shuffle(sample)\n", "        n = len(sample)\n        rng.shuffle(x=sample)\n", rule="M1.param", what="in-place shuffle of the caller's array, argument passed by keyword")
 V("c17-silent-shuffle-keyword", "C17", "silent", UT, "        rng.shuffle(sample)\n", "        rng.shuffle(x=sample)\n", what="shuffle argument passed by keyword")
+
+# ------------------------------------------------------------------------------- C10 Meek rules 3 and 4 (element-quantified; role rules)
+R3_OLD = "    if len(intersection) >= 2:\n        for k in intersection:\n            for l in intersection - {k}:\n                if k not in adj(l, A):\n                    return True\n    return False\n"
+V("c10-rule3-adjacent", "C10", "fire", UT, "                if k not in adj(l, A):\n", "                if k in adj(l, A):\n", rule="RULES.rule_3", what="rule 3 fires for adjacent parents")
+V("c10-rule3-children", "C10", "fire", UT, "    intersection = neighbors(i, A) & pa(j, A)\n", "    intersection = neighbors(i, A) & ch(j, A)\n", rule="RULES.rule_3", what="children of j instead of parents", accept_inconclusive=True)
+V("c10-rule3-union", "C10", "fire", UT, "    intersection = neighbors(i, A) & pa(j, A)\n", "    intersection = neighbors(i, A) | pa(j, A)\n", rule="RULES.rule_3", what="union instead of intersection")
+V("c10-rule3-same-element", "C10", "fire", UT, "            for l in intersection - {k}:\n", "            for l in intersection:\n", rule="RULES.rule_3", what="k = l allowed: a node is never adjacent to itself, so any two parents fire")
+V("c10-rule3-neighbors-of-j", "C10", "fire", UT, "    intersection = neighbors(i, A) & pa(j, A)\n", "    intersection = neighbors(j, A) & pa(j, A)\n", rule="RULES.rule_3", what="neighbours of j", accept_inconclusive=True)
+V("c10-silent-rule3-symmetric", "C10", "silent", UT, "                if k not in adj(l, A):\n", "                if l not in adj(k, A):\n", what="adjacency is symmetric")
+V("c10-silent-rule3-not-in", "C10", "silent", UT, "                if k not in adj(l, A):\n", "                if not (k in adj(l, A)):\n", what="not (x in S)")
+V("c10-silent-rule3-combinations", "C10", "silent", UT, R3_OLD, "    for k, l in itertools.combinations(intersection, 2):\n        if k not in adj(l, A):\n            return True\n    return False\n", what="unordered pairs via itertools.combinations")
+V("c10-silent-rule3-no-size-guard", "C10", "silent", UT, R3_OLD, "    for k in intersection:\n        for l in intersection - {k}:\n            if k not in adj(l, A):\n                return True\n    return False\n", what="redundant size guard dropped")
+V("c10-silent-rule3-neq-test", "C10", "silent", UT, R3_OLD, "    for k in intersection:\n        for l in intersection:\n            if k != l and k not in adj(l, A):\n                return True\n    return False\n", what="distinctness as a test")
+V("c10-rule4-adjacent", "C10", "fire", UT, "                if h not in adj_j:\n", "                if h in adj_j:\n", rule="RULES.rule_4", what="rule 4 fires when h and j are adjacent")
+V("c10-rule4-children-of-k", "C10", "fire", UT, "lambda acc, k: acc | pa(k, A), Ks, set()", "lambda acc, k: acc | ch(k, A), Ks, set()", rule="RULES.rule_4", what="children of k instead of parents")
+V("c10-rule4-ks-children", "C10", "fire", UT, "    pa_j = pa(j, A)\n", "    pa_j = ch(j, A)\n", rule="RULES.rule_4", what="k taken among the children of j", accept_inconclusive=True)
+V("c10-rule4-h-any-parent", "C10", "fire", UT, "        Hs = n_i & set(reduce(", "        Hs = set(reduce(", rule="RULES.rule_4", what="h need not be a neighbour of i")
+V("c10-rule4-adj-i", "C10", "fire", UT, "            adj_j = adj(j, A)\n", "            adj_j = adj(i, A)\n", rule="RULES.rule_4", what="non-adjacency tested against i")
+V("c10-silent-rule4-commuted", "C10", "silent", UT, "    Ks = pa_j & n_i\n", "    Ks = n_i & pa_j\n", what="intersection commutes")
+V("c10-silent-rule4-inline-adj", "C10", "silent", UT, "                if h not in adj_j:\n", "                if h not in adj(j, A):\n", what="adjacency set inlined")
+RN("C10", UT, "rule_3")
+RN("C10", UT, "rule_4")
